@@ -77,7 +77,7 @@ def setup_parser() -> argparse.ArgumentParser:  # noqa: D103
         "-f",
         "--file",
         type=argparse.FileType(mode="rb"),
-        default=sys.stdin,
+        default=sys.stdin.buffer,
         help=(
             "File to read the target JSON document from. "
             "Defaults to reading from the standard input stream."
